@@ -18,10 +18,10 @@ import (
 	"sync"
 	"time"
 
-	ot "github.com/go-text/typesetting/font/opentype"
-	"github.com/go-text/typesetting/font/opentype/tables"
 	"github.com/go-text/typesetting/di"
 	"github.com/go-text/typesetting/font"
+	ot "github.com/go-text/typesetting/font/opentype"
+	"github.com/go-text/typesetting/font/opentype/tables"
 	"github.com/go-text/typesetting/fontscan"
 	"github.com/go-text/typesetting/language"
 	"github.com/go-text/typesetting/shaping"
@@ -39,7 +39,7 @@ type concOp struct {
 
 var concFonts []*font.Font
 var concAxes [][]tables.VariationAxisRecord // per shared font: its variation axes (a fact read from fvar)
-var concOwn [][]rune // per shared font: runes of its own cmap (spread over the cmap), appended to the shaped texts
+var concOwn [][]rune                        // per shared font: runes of its own cmap (spread over the cmap), appended to the shaped texts
 
 var concBase = []string{"ot:common/Commissioner-VF.ttf", "ot:common/Raleway-v4020-Regular.otf", "ot:morx/Eight.ttf", "ot:common/Roboto-BoldItalic.ttf", "ot:bitmap/NotoColorEmoji.ttf", "ot:toys/CFF2-VF.otf"}
 
